@@ -166,6 +166,9 @@ def boundary_cases():
     for nm in ("seed", "width", "length", "max_reward"):
         for val in (-2 ** 1024, -10 ** 400, -2 ** 63 - 1):
             cases.append((dict(base, **{nm: val}), False, "%s=-huge(%d bits)" % (nm, val.bit_length())))
+    # negative seeds SPELLED as non-integers (argparse's own int conversion refuses them; nothing may be accepted or written)
+    for val in ("-0.5", "-1e-9", "-.25", "-1e3", "-0x1"):
+        cases.append((dict(base, seed=val), False, "spelled:seed=%s" % val))
     # two parameters out of range at once (a check that combines parameters must still refuse)
     outside = {"seed": [-1, -7], "width": [-1, -2, 0], "length": [-1, -3, 0], "max_reward": [-1, 0],
                "p_robot": [-0.5, 1.0], "p_light": [0.0, 2.0], "p_tile": [-1.0, 1.0], "p_loose": [0.0, 1.5]}
@@ -202,7 +205,7 @@ def decide_boundary(idx, via_subprocess):
                     problems.append({"problem": "out-of-range parameter accepted (exit status 0)", "files": files})
                 if files:
                     problems.append({"problem": "a file was left behind although the parameters are out of range", "files": files})
-                if r.returncode != 0 and "ValueError" not in r.stderr:
+                if r.returncode != 0 and "ValueError" not in r.stderr and not (label.startswith("spelled:") and "error: argument" in r.stderr):
                     problems.append({"problem": "refused with something other than ValueError", "stderr": r.stderr[-300:]})
         else:
             exc, log, writes = gc.call_main(rg, argv)
@@ -211,7 +214,7 @@ def decide_boundary(idx, via_subprocess):
                 if exc is not None:
                     problems.append({"problem": "accepted boundary value raised %s: %s" % (type(exc).__name__, str(exc)[:100])})
             else:
-                if not isinstance(exc, ValueError):
+                if not isinstance(exc, ValueError) and not (label.startswith("spelled:") and isinstance(exc, SystemExit) and exc.code not in (0, None)):
                     problems.append({"problem": "out-of-range parameter not refused with ValueError", "got": repr(exc)[:200], "files": files})
                 if writes or files:
                     problems.append({"problem": "something was written/created before the parameters were refused", "writes": writes[:3], "files": files})
@@ -220,6 +223,44 @@ def decide_boundary(idx, via_subprocess):
                    case={"boundary": idx, "label": label, "subprocess": via_subprocess})
     if idx % 25 == 0:
         res["sample"] = {"boundary": label, "expected": "accepted" if accepted else "ValueError before any write", "argv": argv}
+    return res
+
+
+def decide_main_twice(idx, seed0):
+    """The command line run in a directory that already holds a file of the same name (generated with a loose-tile probability that
+    rounds to the same whole percent, or with the very same parameters): what is then in the file must be byte for byte what the
+    second command writes in an empty directory."""
+    rg = monitors.mods()["roberta_generator"]
+    rng = games.case_rng(seed0, PID, "MAIN", idx)
+    k = rng.randint(2, 97)
+    first, second = rng.choice([(k / 100 + 0.0049, k / 100 - 0.0049), (k / 100 - 0.0049, k / 100 + 0.0049), (k / 100 + 0.0049, k / 100 - 0.0049), (k / 100, k / 100)])
+    p = dict(seed=rng.randrange(10 ** 6), width=rng.randint(6, 15), length=rng.randint(8, 15), p_robot=.1, p_light=.2, p_tile=.3, max_reward=rng.choice([1, 6, 20]),
+             fd=rng.random() < 0.5)
+    monitors.MON.count("c15.boards")
+    res = {"idx": idx, "verdict": "held", "tags": ["MAIN"], "key": "main:%d" % idx, "nontrivial": first != second, "stats": {"main_twice_cases": 1}}
+
+    def argv(pl):
+        return gc.gen_argv(p["seed"], p["width"], p["length"], p["p_robot"], p["p_light"], p["p_tile"], pl, p["max_reward"], p["fd"])
+    problems = []
+    with gc.Scratch() as a:
+        e1, _, _ = gc.call_main(rg, argv(first))
+        f1 = a.listing()
+        e2, _, _ = gc.call_main(rg, argv(second))
+        f2 = a.listing()
+        twice = {f: open(f).read() for f in f2}
+    with gc.Scratch() as b:
+        e3, _, _ = gc.call_main(rg, argv(second))
+        alone = {f: open(f).read() for f in b.listing()}
+    if e1 or e2 or e3:
+        problems.append({"problem": "generator raised", "exc": [repr(e1), repr(e2), repr(e3)]})
+    elif f1 != f2 or len(f2) != 1:
+        problems.append({"problem": "running the generator again in the same directory did not leave exactly the one file of that name", "files": [f1, f2]})
+    elif twice != alone:
+        mv, rw, lo = rg.gen_rnd_board(p["seed"], p["length"], p["width"], second, p["max_reward"], p["fd"])
+        problems.append({"problem": "the file left by a second run (over an existing file of the same name) is not what the same command writes in an empty directory: "
+                                    "the board is not the one its seed and parameters generate", "loose_tiles_expected": lo})
+    if problems:
+        res.update(verdict="violated", what=problems[0]["problem"], witness=problems[:2], case={"main_twice": idx, "seed": seed0})
     return res
 
 
@@ -259,6 +300,7 @@ def plan(tier, seed):
     b += harness.split("BOUND", len(BOUNDARY), 24)
     b += harness.split("BOUNDSUB", len(BOUNDARY), 24, stride=1 if not q else 9)
     b += harness.split("REPO", 25, 25)
+    b += harness.split("MAIN", 60 if q else 600, 20 if q else 100)
     return b
 
 
@@ -276,6 +318,8 @@ def run_batch(batch):
         elif cls == "BOUNDSUB":
             if idx % batch.get("stride", 1) == 0:
                 yield decide_boundary(idx, True)
+        elif cls == "MAIN":
+            yield decide_main_twice(idx, batch["seed"])
         elif cls == "REPO":
             yield decide_repo(idx)
 
@@ -288,6 +332,8 @@ def replay(case):
     monitors.install(step_meter=False)
     if "boundary" in case:
         return decide_boundary(case["boundary"], case.get("subprocess", False))
+    if "main_twice" in case:
+        return decide_main_twice(case["main_twice"], case.get("seed", 0))
     if "board_args" in case:
         rg = monitors.mods()["roberta_generator"]
         a = case["board_args"]
